@@ -27,8 +27,8 @@ type guardInfo struct {
 }
 
 type Engine struct {
-	curView string // proof view for the next verifyFunc call
-	excuses map[string]string // open known findings: obligation name -> pre-state predicate describing the recorded failing inputs
+	curView  string            // proof view for the next verifyFunc call
+	excuses  map[string]string // open known findings: obligation name -> pre-state predicate describing the recorded failing inputs
 	repo     string
 	verif    string
 	prog     *ssa.Program
